@@ -11,9 +11,11 @@ LINOP_ASSUME = ["bounds: atom catalogue and MaxStack/MaxLevel/MaxFlat of the the
 
 PROPS = {
     "C01": {"level": "model_checking", "engines": [LINOP, ("interp", "interp", "run"), ("conv", "conv", "run"), ("nufft", "nufft", "run"), ("wavelet", "wavelet", "run"), ("sense", "sense", "run"), ("fourier", "fourier", "run")], "rule": LINOP_RULE, "assumptions": LINOP_ASSUME, "trusted": TLC_BASE},
-    "C02": {"level": "model_checking", "engines": [LINOP, ("index_maps", "index_maps", "run"), ("prox", "prox", "run"), ("nufft", "nufft", "run"), ("purity", "purity", "run")], "rule": LINOP_RULE, "assumptions": LINOP_ASSUME, "trusted": TLC_BASE},
-    "C03": {"level": "model_checking", "engines": [LINOP], "rule": LINOP_RULE, "assumptions": LINOP_ASSUME, "trusted": TLC_BASE},
-    "C04": {"level": "model_checking", "engines": [LINOP, ("interp", "interp", "run"), ("nufft", "nufft", "run")], "rule": LINOP_RULE, "assumptions": LINOP_ASSUME, "trusted": TLC_BASE},
+    # (every engine that can raise a violation tagged with a property is in that property's list: a tag nobody runs is a check nobody sees)
+    "C02": {"level": "model_checking", "engines": [LINOP, ("index_maps", "index_maps", "run"), ("prox", "prox", "run"), ("nufft", "nufft", "run"), ("purity", "purity", "run"),
+                                                   ("interp", "interp", "run"), ("sense", "sense", "run"), ("alg_protocol", "alg_protocol", "run")], "rule": LINOP_RULE, "assumptions": LINOP_ASSUME, "trusted": TLC_BASE},
+    "C03": {"level": "model_checking", "engines": [LINOP, ("conv", "conv", "run"), ("interp", "interp", "run"), ("sense", "sense", "run"), ("alg_protocol", "alg_protocol", "run")], "rule": LINOP_RULE, "assumptions": LINOP_ASSUME, "trusted": TLC_BASE},
+    "C04": {"level": "model_checking", "engines": [LINOP, ("interp", "interp", "run"), ("nufft", "nufft", "run"), ("conv", "conv", "run"), ("sense", "sense", "run")], "rule": LINOP_RULE, "assumptions": LINOP_ASSUME, "trusted": TLC_BASE},
     "C15": {"level": "model_checking", "engines": [("alg_protocol", "alg_protocol", "run"), ("cg", "cg", "run"), ("descent", "descent", "run"), ("espirit", "espirit", "run"), ("lls", "lls", "run"), ("splitting", "splitting", "run")],
             "rule": "one case per Alg object observed through the trace hooks (driven along TLC-generated call sequences, inner solvers, and the repository's own tests) validated by TLC against AlgLoopTrace.tla; non-trivial = the object performed at least two updates",
             "assumptions": ["protocol model checked for max_iter 0..3 (quick) / 0..4 (thorough) with up to max_iter+2 hand-driven updates", "early-stop probe compares solution arrays bitwise after one further update", "splitting engine: exact instances of dimension 1-2, max_iter <= 3 (quick) / 4 (thorough); early stop compared to 1e-9"],
@@ -103,15 +105,15 @@ ENGINES = [
      "kind_free_text": "TLC on exact integer power iteration + replay; EspiritCalib runs validated as traces (norms, crop, phase reference, eigenvalue range and monotonicity, recovery)"},
     {"name": "bloch", "path": "harness/engines/bloch.py + spec/Bloch.tla, CRat.tla, AccuracyTrace.tla", "serves_properties": ["C19"],
      "kind_free_text": "TLC over exact SU(2) hard-pulse recursions (unitarity, zero pulse, composition) + replay; numeric defects of all simulators and SLR round trips validated against spec thresholds"},
-    {"name": "sense", "path": "harness/engines/sense.py + spec/Sense.tla", "serves_properties": ["C16", "C01"],
+    {"name": "sense", "path": "harness/engines/sense.py + spec/Sense.tla", "serves_properties": ["C16", "C01", "C02", "C03", "C04"],
      "kind_free_text": "TLC over coil-batching plans; dense factory vs explicit multi-coil encoding; recon apps vs independent references"},
     {"name": "wavelet", "path": "harness/engines/wavelet.py + spec/Wavelet.tla, spec/AccuracyTrace.tla", "serves_properties": ["C10", "C01"],
      "kind_free_text": "TLC: exact coefficient-shape calculus over families x shapes x axes x levels; harness: shape comparison and measured identities validated by TLC"},
     {"name": "nufft", "path": "harness/engines/nufft.py + spec/Nufft.tla, spec/AccuracyTrace.tla", "serves_properties": ["C06", "C04", "C02", "C01"],
      "kind_free_text": "TLC: exact NDFT exponent matrices and periodicity laws; harness: dense probing of nufft / adjoint / NUFFT linop; TLC validates the measured defects against the thresholds held in AccuracyTrace"},
-    {"name": "conv", "path": "harness/engines/conv.py + spec/Conv.tla", "serves_properties": ["C08", "C01"],
+    {"name": "conv", "path": "harness/engines/conv.py + spec/Conv.tla", "serves_properties": ["C08", "C01", "C03", "C04"],
      "kind_free_text": "TLC enumeration of convolution configurations as bilinear index relations + replay of convolve, adjoints, rejection and Convolve* linops"},
-    {"name": "interp", "path": "harness/engines/interp.py + spec/Interp.tla", "serves_properties": ["C07", "C01", "C04"],
+    {"name": "interp", "path": "harness/engines/interp.py + spec/Interp.tla", "serves_properties": ["C07", "C01", "C04", "C02", "C03"],
      "kind_free_text": "TLC enumeration of interpolation windows in exact rationals + replay of interpolate/gridding and the Interpolate/Gridding linops"},
     {"name": "fourier", "path": "harness/engines/fourier.py + spec/Fourier.tla", "serves_properties": ["C05"],
      "kind_free_text": "TLC enumeration of fft/ifft configurations with exact exponent laws + replay against explicit DFT matrices"},
@@ -127,7 +129,7 @@ ENGINES = [
      "kind_free_text": "TLC safety+liveness of the bisection design; batch trace validation of recorded poisson() calls"},
     {"name": "trap", "path": "harness/engines/trap.py + spec/Trap.tla, TrapDefs.tla, Spokes.tla, Rat.tla", "serves_properties": ["C20"],
      "kind_free_text": "TLC sweep of rational (G, a) grid and spoke assemblies + replay on trap_grad/min_trap_grad/spokes_grad"},
-    {"name": "alg_protocol", "path": "harness/engines/alg_protocol.py + harness/drivers/alg_driver.py + spec/AlgLoop.tla, AlgLoopTrace.tla, NestedRuns.tla, NestedTrace.tla", "serves_properties": ["C15", "C02"],
+    {"name": "alg_protocol", "path": "harness/engines/alg_protocol.py + harness/drivers/alg_driver.py + spec/AlgLoop.tla, AlgLoopTrace.tla, NestedRuns.tla, NestedTrace.tla", "serves_properties": ["C15", "C02", "C03"],
      "kind_free_text": "TLC model checking of the iteration protocol and of the nesting design (frames of App.run / Alg.update across objects); graph walks drive real Alg/App objects with hooks; batch trace validation of driver and test-suite executions per object (AlgLoopTrace) and as whole interleaved streams (NestedTrace)"},
     {"name": "linop_algebra", "path": "harness/engines/linop.py + spec/LinopAlgebra.tla (CMat, ElementMaps, Shape)", "serves_properties": ["C01", "C02", "C03", "C04"],
      "kind_free_text": "TLC exhaustive over sessions with the linop API (themes atoms/algebra/stack) + S->C replay of every distinct entry and rejected call"},
